@@ -13,6 +13,8 @@ import PdshVerif.Dsh.Exit
 import PdshVerif.Dsh.ExitSpec
 import PdshVerif.Dsh.ExitLemmas
 import PdshVerif.Dsh.ExitRefine
+import PdshVerif.Dsh.ExitRelay
+import PdshVerif.Relay.IndexSim
 
 namespace PdshVerif.C08
 open PdshVerif PdshVerif.Dsh PdshVerif.Dsh.Exit
@@ -327,5 +329,73 @@ example : (⟨["hello\n".toList], "no newline".toList, ["late\n".toList]⟩ : In
   refine ⟨?_, ?_, by decide, by decide, by decide⟩
   · intro l hl; simp at hl; subst hl; exact ⟨⟨"hello".toList, by decide, by decide⟩, by decide⟩
   · intro l hl; simp at hl; subst hl; exact ⟨⟨"late".toList, by decide, by decide⟩, by decide⟩
+
+/-! ## end to end through the relay model: any chunking of every host's stdout -/
+
+/-- IN-BAND RC, ANY CHUNKING (repaired D9 + late line; the relay model of Relay/Model.lean over the FIFO buffer,
+    i.e. `_rsh_thread`'s read loop, `_do_output`, `_flush_lines`, `_extract_rc`, the drain and `_flush_output`):
+    however the bytes of a host's stdout are cut into arrivals, if the command printed marker-free text and the
+    remote shell then printed the marker line for exit code k (and marker-free output may still follow), the rc
+    dsh() has for that host when its thread ends is k. -/
+theorem inband_rc_any_chunking (cfg : Relay.Cfg) (hsk : cfg.rcSkipDigit = false) (hev : cfg.rcEveryLine = false)
+    (t0host : Relay.Bytes) (t : ExitRelay.RelayTarget) (ht : t.ok) :
+    (Relay.runStream Relay.fifoOps cfg t.host t0host 1 true t.b0 t.script).rc = t.code := by
+  obtain ⟨h1, h2, hb, hS, hroom, hU, hL, h0, hk⟩ := ht
+  rw [(Relay.runStream_fifo cfg t.host 1 true h1 h2 t0host hb t.script hroom).2, hS]
+  exact ExitRelay.afterLines_marker cfg hsk hev t.host 1 t.user t.late t.code hk hU hL h0
+
+/-- the same over the INDEX-level model of cbuf.c (the relay instance that is run against the real cbuf.c and
+    dsh.c by the C05/C06 correspondence), via the simulation `runStream_index_eq_fifo` -/
+theorem inband_rc_any_chunking_index (cfg : Relay.Cfg) (hsk : cfg.rcSkipDigit = false)
+    (hev : cfg.rcEveryLine = false) (t0host : Relay.Bytes) (t : ExitRelay.RelayTarget) (ht : t.ok)
+    (a0 : Cbuf.Cbuf) (ha : Relay.mkIndexBuf t.sizeMeta = some a0) :
+    (Relay.runStream Relay.indexOps cfg t.host t0host 1 true a0 t.script).rc = t.code := by
+  have hm : 0 < t.sizeMeta := by have := ht.1; omega
+  have h := Relay.runStream_index_eq_fifo cfg t.host t0host 1 true hm ha ht.2.2.1 t.script
+  rw [h.2]
+  exact inband_rc_any_chunking cfg hsk hev t0host t ht
+
+/-- END TO END (repaired D8 + D9 + late line): for every vector of targets whose commands ran and returned
+    their codes, every chunking of every host's stdout, with and without -S / -k, the process exit status is one
+    the specification admits — the relay's per-line processing, `_extract_rc`, the `rcmd_destroy` fallback, the -S
+    loop and main composed. -/
+theorem inband_end_to_end (fx : Fixes) (hd8 : fx.d8 = true) (cfg : Relay.Cfg)
+    (hsk : cfg.rcSkipDigit = false) (hev : cfg.rcEveryLine = false) (t0host : Relay.Bytes) (S k : Bool)
+    (ts : List ExitRelay.RelayTarget) (hok : ∀ t ∈ ts, t.ok) :
+    ExitSpec.admissible S k false (ts.map fun t => ExitSpec.Outcome.exited t.code)
+      (mainExit fx ⟨S, k⟩ (.started (ts.map (ExitRelay.RelayTarget.seenBy cfg t0host)))) = true := by
+  apply faithful_exit_admissible fx hd8
+  · clear S k
+    induction ts with
+    | nil => exact .nil
+    | cons t rest ih =>
+      refine .cons ?_ (ih (fun y hy => hok y (by simp [hy])))
+      have hrc := inband_rc_any_chunking cfg hsk hev t0host t (hok t (by simp))
+      show ExitRelay.RelayTarget.seenBy cfg t0host t = ⟨.done, (t.code : Int)⟩
+      unfold ExitRelay.RelayTarget.seenBy
+      rw [hrc]
+      simp [finalRc]
+  · intro o ho
+    simp only [List.mem_map] at ho
+    obtain ⟨t, hm, rfl⟩ := ho
+    have := (hok t hm).2.2.2.2.2.2.2.2
+    show t.code ≤ 255
+    omega
+
+/-- ... and under -S that status IS the largest code -/
+theorem inband_end_to_end_max (fx : Fixes) (hd8 : fx.d8 = true) (cfg : Relay.Cfg)
+    (hsk : cfg.rcSkipDigit = false) (hev : cfg.rcEveryLine = false) (t0host : Relay.Bytes)
+    (ts : List ExitRelay.RelayTarget) (hok : ∀ t ∈ ts, t.ok) :
+    mainExit fx ⟨true, false⟩ (.started (ts.map (ExitRelay.RelayTarget.seenBy cfg t0host))) =
+      ExitSpec.maxCode (ts.map fun t => ExitSpec.Outcome.exited t.code) := by
+  have h := inband_end_to_end fx hd8 cfg hsk hev t0host true false ts hok
+  unfold ExitSpec.admissible at h
+  have hk : (ts.map fun t => ExitSpec.Outcome.exited t.code).any ExitSpec.Outcome.isKilled = false := by
+    simp [List.any_eq_false, ExitSpec.Outcome.isKilled]
+  have hu : (ts.map fun t => ExitSpec.Outcome.exited t.code).any ExitSpec.Outcome.unreachable = false := by
+    simp [List.any_eq_false, ExitSpec.Outcome.unreachable]
+  simp only [Bool.false_eq_true, if_false, Bool.false_and, Bool.not_true, hk, decide_eq_true_eq] at h
+  rw [h]
+  simp [ExitSpec.base, hu]
 
 end PdshVerif.C08
